@@ -29,5 +29,14 @@ for d in sorted((ROOT / "seeded").iterdir()):
             how.append(c + (": correspondence/obligation only (no-failing-input-found)" if all("no-failing-input-found" in l for l in vl)
                             else ": oracle violation with replay"))
     hist = m.get("history", "")
+    prevs = m.get("previous_runs", [])
+    if prevs and not hist:
+        first = prevs[0]
+        fc = first.get("caught_by") or []
+        weak = all("no-failing-input-found" in l for v_ in first.get("verdicts", {}).values() for l in v_.get("lines", []) if l.startswith("VIOLATION"))
+        if not fc:
+            hist = "first run: MISSED by " + ", ".join(first.get("verdicts", {})) + "; caught after the check was strengthened"
+        elif weak and fc:
+            hist = "first run: only a correspondence disagreement (no-failing-input-found); oracle strengthened"
     print(f"| {m['name']} | {summ} | {m.get('demo_clean_exit')} / {m.get('demo_changed_exit')} | {suite} | "
           f"{', '.join(m.get('caught_by', [])) or 'MISSED'} | {'; '.join(how)}{(' — ' + hist) if hist else ''} |")
